@@ -148,6 +148,9 @@ def generate(run_seed: int, cfg: Dict[str, Any]) -> Dict[str, Any]:
         style = ro.choice(STYLES_SINGLE if single else STYLES_MULTI)
         variant = 0 if style in ("ex", "ex_descr") else ro.randrange(2)
         op = {"id": i, "client": client, "kind": "eval", "pipe": pi, "backend": backend, "style": style, "variant": variant}
+        if style in ("eval", "transform", "rshift") and ro.random() < 0.3:
+            # the very pipeline object that ex() uses (built on data()/descr() captures) applied to explicitly passed data
+            op["cap"] = True
         if rf.random() < abort_rate:
             op["abort_at"] = rf.choice([0, 1, 1, 2, 2, 3, 3, 4, 5, 6, 8, 10, 13, 17])
         ops.append(op)
@@ -341,7 +344,7 @@ def _run(scn, log: EventLog, stats: Stats):
             kinds.append(f"{style}:{backend}")
             prefix = "pd:" if backend == "pandas" else "pl:"
             inputs = {n: pool[f"{prefix}{n}:{variant}"] for n in tabs}
-            flavour = ("cap:" + backend) if style in ("ex", "ex_descr") else "plain"
+            flavour = ("cap:" + backend) if (style in ("ex", "ex_descr") or op.get("cap")) else "plain"
             o = get_ops(pi, flavour)
             if isinstance(o, Exception):
                 stats.probe("pipeline-rejected-by-builder")
